@@ -1426,7 +1426,10 @@ func (e *CoreExtension) filterFirst(value interface{}, args ...interface{}) (int
 	case reflect.Map:
 		// The first entry is the one with the smallest key
 		if keys := sortedMapKeys(rv); len(keys) > 0 {
-			return rv.MapIndex(keys[0]).Interface(), nil
+			// A NaN key has no value that a lookup could find
+			if v := rv.MapIndex(keys[0]); v.IsValid() {
+				return v.Interface(), nil
+			}
 		}
 		return nil, nil
 	}
@@ -1787,7 +1790,9 @@ func (e *CoreExtension) filterMerge(value interface{}, args ...interface{}) (int
 		// Copy original values, in sorted key order: two keys can have the same string form
 		// (the int 1 and the string "1" in a map[interface{}]T), and the one stored last wins
 		for _, key := range sortedMapKeys(rv) {
-			resultMap[mapKeyString(key)] = rv.MapIndex(key).Interface()
+			if v := rv.MapIndex(key); v.IsValid() { // a NaN key has no value that a lookup could find
+				resultMap[mapKeyString(key)] = v.Interface()
+			}
 		}
 
 		// Merge values from the arguments
@@ -1795,7 +1800,9 @@ func (e *CoreExtension) filterMerge(value interface{}, args ...interface{}) (int
 			argRv := reflect.ValueOf(arg)
 			if argRv.Kind() == reflect.Map {
 				for _, key := range sortedMapKeys(argRv) {
-					resultMap[mapKeyString(key)] = argRv.MapIndex(key).Interface()
+					if v := argRv.MapIndex(key); v.IsValid() {
+						resultMap[mapKeyString(key)] = v.Interface()
+					}
 				}
 			}
 		}
@@ -2277,7 +2284,9 @@ func (e *CoreExtension) functionMerge(args ...interface{}) (interface{}, error) 
 			baseRv := reflect.ValueOf(base)
 			for _, key := range sortedMapKeys(baseRv) {
 				keyStr := toString(key.Interface())
-				result[keyStr] = baseRv.MapIndex(key).Interface()
+				if v := baseRv.MapIndex(key); v.IsValid() { // a NaN key has no value that a lookup could find
+					result[keyStr] = v.Interface()
+				}
 			}
 		}
 
@@ -2294,7 +2303,9 @@ func (e *CoreExtension) functionMerge(args ...interface{}) (interface{}, error) 
 				if argRv.Kind() == reflect.Map {
 					for _, key := range sortedMapKeys(argRv) {
 						keyStr := toString(key.Interface())
-						result[keyStr] = argRv.MapIndex(key).Interface()
+						if v := argRv.MapIndex(key); v.IsValid() {
+							result[keyStr] = v.Interface()
+						}
 					}
 				}
 			}
